@@ -25,11 +25,27 @@ def hasBit (b mask : Nat) : Bool := (b / mask) % 2 == 1
 inductive Mode | full | headerOnly | fileIdOnly | crcOnly
 deriving DecidableEq, Repr, Inhabited
 
-abbrev DP := DProg Outcome
-
 def fail (st : DecSt) (c : ErrClass) : Outcome := { err := some c, st := st }
 def panicOut (st : DecSt) : Outcome := { err := none, panic := true, st := st }
 def okOut (st : DecSt) : Outcome := { err := none, st := st }
+
+/-- An early exit of the record phase: an error class or (`none`) a panic — by construction never
+    a success. -/
+structure ErrExit where
+  err : Option ErrClass
+  st : DecSt
+deriving Repr, Inhabited
+
+def ErrExit.toOutcome (e : ErrExit) : Outcome :=
+  match e.err with
+  | some c => fail e.st c
+  | none => panicOut e.st
+
+/-- programs of the record phase: early exit or the decoder state -/
+abbrev DP := DProg ErrExit DecSt
+
+def dfail (st : DecSt) (c : ErrClass) : DP := .exit ⟨some c, st⟩
+def dpanic (st : DecSt) : DP := .exit ⟨none, st⟩
 
 /-- error class of a failed buffered read (`fill` → FormatError, `noEOF`) -/
 def bufErr : RdStop → ErrClass
@@ -39,7 +55,7 @@ def bufErr : RdStop → ErrClass
 
 /-- `readFull` / `readByte` / `skipByte`: `k` bytes of the data area -/
 def rd (st : DecSt) (k : Nat) (cont : Bytes → DecSt → DP) : DP :=
-  .readBuf k (fun e => fail st (bufErr e))
+  .readBuf k (fun e => ⟨some (bufErr e), st⟩)
     (fun bs => cont bs { st with n := st.n + k, crc := Crc.update st.crc bs })
 
 /-! ### validateFieldDef -/
@@ -290,8 +306,8 @@ def parseFields (P : Profile) (dm : DefMsg) (known : Bool) :
       else st
     rd st fd.size fun raw st =>
       match applyField P dm known fd raw m st.ts with
-      | .err => .done (fail st .other)
-      | .panic => .done (panicOut st)
+      | .err => dfail st .other
+      | .panic => dpanic st
       | .ok m ts => parseFields P dm known fds m (st.setTs ts) cont
 
 /-- developer fields are read and dropped -/
@@ -305,13 +321,13 @@ def parseData (P : Profile) (hb : Nat) (compressed : Bool) (st : DecSt)
   let localT := if compressed then (hb / 32) % 4 else hb % 16
   let useTs : Bool := compressed && decide (st.timestamp ≠ 0)   -- a compressed header needs a reference
   match st.defs.getD localT none with
-  | none => .done (fail st .other)
+  | none => dfail st .other
   | some dm =>
     let known := P.known dm.global
     let ctor := match P.msg? dm.global with
       | some pm => if pm.hasCtor then some (Msg.mk dm.global pm.invalid) else none
       | none => none
-    if known ∧ ctor.isNone then .done (panicOut st)       -- getMesgAllInvalid: nil / out of range
+    if known ∧ ctor.isNone then dpanic st       -- getMesgAllInvalid: nil / out of range
     else
       let m : Option Msg := if known then ctor else none
       let st := if !known then { st with unkM := bump dm.global st.unkM } else st
@@ -330,8 +346,8 @@ def parseData (P : Profile) (hb : Nat) (compressed : Bool) (st : DecSt)
           | some msg, some pm =>
             match pm.layout[pf.sindex]? with
             | some .time => body (some { msg with vals := setAt msg.vals pf.sindex (.t (Int.ofNat ts) 0 0) }) st
-            | _ => .done (panicOut st)
-          | _, _ => .done (panicOut st)                   -- msgv.Field on the zero Value
+            | _ => dpanic st
+          | _, _ => dpanic st                   -- msgv.Field on the zero Value
 
 def parseFieldDefs (bs : Bytes) : (n : Nat) → List FieldDef
   | 0 => []
@@ -353,18 +369,18 @@ def parseDefinition (P : Profile) (hb : Nat) (st : DecSt) (cont : DefMsg → Dec
   rd st 1 fun _ st =>                                    -- reserved
   rd st 1 fun a st =>
     let archB := (a.headD 0).toNat
-    if archB > 1 then .done (fail st .other)
+    if archB > 1 then dfail st .other
     else
       let arch : Endian := if archB = 0 then .le else .be
       rd st 2 fun g st =>
         let global := arch.dec g
-        if global = mesgNumInvalid then .done (fail st .format)
+        if global = mesgNumInvalid then dfail st .format
         else rd st 1 fun nf st =>
           let nfields := (nf.headD 0).toNat
           if nfields = 0 ∧ !hasBit hb devDataMask then cont ⟨localT, arch, global, [], []⟩ st
           else rd st (3 * nfields) fun fb st =>
             let fds := parseFieldDefs fb nfields
-            if !(fds.all (validateFieldDef P global)) then .done (fail st .other)
+            if !(fds.all (validateFieldDef P global)) then dfail st .other
             else if hasBit hb devDataMask then
               rd st 1 fun nd st =>
                 let ndev := (nd.headD 0).toNat
@@ -395,7 +411,7 @@ def decodeFileData (P : Profile) (limit : Nat) :
         if hasBit hb compressedHeaderMask then
           parseData P hb true st fun m st =>
             match addMsg P m st with
-            | none => .done (panicOut st)
+            | none => dpanic st
             | some st => decodeFileData P limit fuel st cont
         else if hasBit hb mesgDefinitionMask then
           parseDefinition P hb st fun dm st =>
@@ -403,7 +419,7 @@ def decodeFileData (P : Profile) (limit : Nat) :
         else
           parseData P hb false st fun m st =>
             match addMsg P m st with
-            | none => .done (panicOut st)
+            | none => dpanic st
             | some st => decodeFileData P limit fuel st cont
     else cont st
 
@@ -411,20 +427,20 @@ def decodeFileData (P : Profile) (limit : Nat) :
 def parseFileIdMsg (P : Profile) (st : DecSt) (cont : DecSt → DP) : DP :=
   rd st 1 fun hbs st =>
     let hb := (hbs.headD 0).toNat
-    if !hasBit hb mesgDefinitionMask then .done (fail st .other)
+    if !hasBit hb mesgDefinitionMask then dfail st .other
     else parseDefinition P hb st fun dm st =>
-      if dm.global ≠ mnFileId then .done (fail st .other)
+      if dm.global ≠ mnFileId then dfail st .other
       else
         let st := { st with defs := setAt st.defs dm.localT (some dm) }
         rd st 1 fun hbs2 st =>
           let hb2 := (hbs2.headD 0).toNat
           parseData P hb2 false st fun m st =>
             match m with
-            | none => .done (panicOut st)                 -- msg.Interface() on the zero Value
+            | none => dpanic st                 -- msg.Interface() on the zero Value
             | some msg =>
-              if msg.num ≠ mnFileId then .done (fail st .other)
+              if msg.num ≠ mnFileId then dfail st .other
               else match addMsg P (some msg) st with
-                | none => .done (panicOut st)
+                | none => dpanic st
                 | some st => cont st
 
 /-- `checkCRC` -/
@@ -437,7 +453,9 @@ def checkCRC (st : DecSt) : TProg Outcome :=
       .done (if crc = 0#16 then okOut st else fail st .integrity))
 
 /-- `decodeHeader` -/
-def decodeHeader (st : DecSt) (cont : DecSt → HProg Outcome) : HProg Outcome :=
+abbrev HP := HProg Outcome ErrExit DecSt
+
+def decodeHeader (st : DecSt) (cont : DecSt → HP) : HP :=
   .readDirect 1
     (fun _ stop => match stop with
       | .eof => fail { st with cleanEOF := true } .ioerr     -- errReadSize: no byte of a header
@@ -475,8 +493,21 @@ def zeroFileId (P : Profile) : Msg :=
   | some pm => ⟨mnFileId, pm.layout.map zeroVal⟩
   | none => ⟨mnFileId, []⟩
 
+/-- the record phase after the header: file_id, `init`, all records (`decodeFileData`) -/
+def recordsProg (P : Profile) (mode : Mode) (st : DecSt) : DP :=
+  parseFileIdMsg P st fun st =>
+    if mode = .fileIdOnly then .done st
+    else match st.file with
+      | none => dpanic st
+      | some f =>
+        match f.init P with
+        | .error c => dfail st c
+        | .ok f' =>
+          let st := { st with file := some f' }
+          decodeFileData P st.hdr.dataSize (st.hdr.dataSize + 1) st fun st => .done st
+
 /-- `(*decoder).decode` -/
-def decodeProg (P : Profile) (mode : Mode) (g : Globals) : HProg Outcome :=
+def decodeProg (P : Profile) (mode : Mode) (g : Globals) : HP :=
   decodeHeader (DecSt.init g) fun st =>
     let st := { st with file := some { hdr := st.hdr, fileId := zeroFileId P } }
     match mode with
@@ -485,21 +516,11 @@ def decodeProg (P : Profile) (mode : Mode) (g : Globals) : HProg Outcome :=
       .copyAll st.hdr.dataSize
         (fun stop => fail st (match stop with | .eof => .eof | .fault => .fault))
         (fun bs => checkCRC { st with crc := Crc.update st.crc bs })
-    | _ =>
-      let st := { st with unkInit := true }
-      .data st.hdr.dataSize <|
-      parseFileIdMsg P st fun st =>
-        if mode = .fileIdOnly then .done (okOut st)
-        else match st.file with
-          | none => .done (panicOut st)
-          | some f =>
-            match f.init P with
-            | .error c => .done (fail st c)
-            | .ok f' =>
-              let st := { st with file := some f' }
-              decodeFileData P st.hdr.dataSize (st.hdr.dataSize + 1) st fun st =>
-                -- pre-CRC invariant check (`n == limit`, else panic), then the trailer
-                .endData (panicOut st) (checkCRC st)
+    | .fileIdOnly =>
+      .dataOnly st.hdr.dataSize (recordsProg P mode { st with unkInit := true }) ErrExit.toOutcome okOut
+    | .full =>
+      -- records, then the pre-CRC invariant check (`n == limit`, else panic), then the trailer
+      .data st.hdr.dataSize (recordsProg P mode { st with unkInit := true }) ErrExit.toOutcome panicOut checkCRC
 
 /-- sort an association list by key (insertion sort; keys are distinct) -/
 def insertBy {α} (lt : α → α → Bool) (x : α) : List α → List α
